@@ -19,6 +19,7 @@ import (
 	"github.com/bandprotocol/chain/v3/pkg/tss"
 	bandtesting "github.com/bandprotocol/chain/v3/testing"
 	bandtsstypes "github.com/bandprotocol/chain/v3/x/bandtss/types"
+	oracletypes "github.com/bandprotocol/chain/v3/x/oracle/types"
 	tsstypes "github.com/bandprotocol/chain/v3/x/tss/types"
 	"github.com/bandprotocol/chain/v3/zzverif/engine"
 	"github.com/bandprotocol/chain/v3/zzverif/tssh"
@@ -78,11 +79,12 @@ type model struct {
 	Earned   []int64
 	Spent    int64 // requester
 	Reqs     int
+	Due      []bool // oracle requests (with TSS encoder) that resolve at the next block end; true = fee limit leaves room for the signing fee
 }
 
 func (m *model) Clone() engine.Model {
 	c := &model{NextDE: append([]uint64(nil), m.NextDE...), Used: map[string]bool{}, Active: append([]bool(nil), m.Active...),
-		Attempts: append([]attemptRec(nil), m.Attempts...), Escrow: m.Escrow, Earned: append([]int64(nil), m.Earned...), Spent: m.Spent, Reqs: m.Reqs}
+		Attempts: append([]attemptRec(nil), m.Attempts...), Escrow: m.Escrow, Earned: append([]int64(nil), m.Earned...), Spent: m.Spent, Reqs: m.Reqs, Due: append([]bool(nil), m.Due...)}
 	for _, q := range m.Queues {
 		c.Queues = append(c.Queues, append([]uint64(nil), q...))
 	}
@@ -128,6 +130,9 @@ func (s *spec) Build(w *engine.World) (sdk.Context, engine.Model) {
 	bp.FeePerSigner = sdk.NewCoins(sdk.NewInt64Coin("uband", s.cfg.FeePerSigner))
 	if err := w.App.BandtssKeeper.SetParams(ctx, bp); err != nil {
 		panic(err)
+	}
+	for _, v := range bandtesting.Validators {
+		tssh.Must(w.Tx(ctx, 0, oracletypes.NewMsgActivate(v.ValAddress)), "activate validator")
 	}
 	g, ctx2 := tssh.SetupCurrentGroup(w, ctx, s.cfg.N, uint64(s.cfg.T), 1)
 	ctx = ctx2
@@ -184,7 +189,7 @@ func (s *spec) Enabled(w *engine.World, ctx sdk.Context, mm engine.Model, depth 
 		}
 	}
 	if m.Reqs < s.cfg.MaxReq {
-		for _, k := range []string{"req", "reqlow", "reqgov", "reqfail", "reqpoor"} {
+		for _, k := range []string{"req", "reqlow", "reqgov", "reqfail", "reqpoor", "oreq", "oreqlow"} {
 			if has(ev, k) {
 				out = append(out, k)
 			}
@@ -344,6 +349,31 @@ func (s *spec) Step(w *engine.World, ctx sdk.Context, mm engine.Model, ev string
 		if res.OK() {
 			m.Active[i] = true
 		}
+	case "oreq", "oreqlow":
+		// an oracle request with a TSS encoder, reported at once by its validator: its result is put to the
+		// signing group by the oracle end-blocker of this block (signing creation inside a cache context)
+		m.Reqs++
+		oracleCost := int64(3_000_000) // script 1 asks data sources 1..3 (1000000uband each), ask_count 1
+		limit := oracleCost + fee*int64(s.cfg.T)
+		if parts[0] == "oreqlow" {
+			limit = oracleCost // nothing left for the signing fee: creation must fail and leave no trace
+		}
+		rq := oracletypes.NewMsgRequestData(1, []byte("c"), 1, 1, "tsssig", sdk.NewCoins(sdk.NewInt64Coin("uband", limit)), bandtesting.TestDefaultPrepareGas, bandtesting.TestDefaultExecuteGas, bandtesting.FeePayer.Address, oracletypes.ENCODER_FULL_ABI)
+		res := w.Tx(ctx, 0, rq)
+		st.Outcome = parts[0] + ":" + res.ErrName()
+		if res.OK() {
+			rid := w.App.OracleKeeper.GetRequestCount(ctx)
+			req := w.App.OracleKeeper.MustGetRequest(ctx, oracletypes.RequestID(rid))
+			val, _ := sdk.ValAddressFromBech32(req.RequestedValidators[0])
+			var raws []oracletypes.RawReport
+			for _, rr := range req.RawRequests {
+				raws = append(raws, oracletypes.NewRawReport(rr.ExternalID, 0, []byte("x")))
+			}
+			if r2 := w.Tx(ctx, 0, oracletypes.NewMsgReportData(oracletypes.RequestID(rid), raws, val)); !r2.OK() {
+				panic("report: " + r2.Err.Error())
+			}
+			m.Due = append(m.Due, parts[0] == "oreq")
+		}
 	case "req", "reqlow", "reqgov", "reqfail", "reqpoor":
 		m.Reqs++
 		content := tsstypes.NewTextSignatureOrder([]byte(fmt.Sprintf("msg-%d", m.Reqs)))
@@ -463,6 +493,8 @@ func (s *spec) Step(w *engine.World, ctx sdk.Context, mm engine.Model, ev string
 				paidOut = append(paidOut, sg)
 			}
 		}
+		preActive := append([]bool(nil), m.Active...)
+		feeAtStart := fee
 		// 2. attempts whose period has passed (creation order)
 		var retry []*mSigning
 		for i := range m.Attempts {
@@ -508,6 +540,52 @@ func (s *spec) Step(w *engine.World, ctx sdk.Context, mm engine.Model, ev string
 		// read back from the chain (given), so step through them now on the post-block state, which
 		// still carries height h for attempt creation (attempts are created in the EndBlocker of h).
 		postEnd := next.WithBlockHeight(h)
+		// signings created by the oracle end-blocker (it runs before the tss end-blocker): eligibility and
+		// nonce queues as they were before this block's time-outs
+		for _, room := range m.Due {
+			eligPre := map[int]bool{}
+			for i := 0; i < s.cfg.N; i++ {
+				if preActive[i] && len(m.Queues[i]) > 0 {
+					eligPre[i] = true
+				}
+			}
+			expectNew := room && len(eligPre) >= s.cfg.T
+			known := uint64(0)
+			for _, sg := range m.Sigs {
+				if sg.ID > known {
+					known = sg.ID
+				}
+			}
+			has := expectNew
+			if expectNew && tk.GetSigningCount(postEnd) <= known {
+				st.Violate("C05/oracle-result-signing-creation-mismatch", "oracle result signing expected (fee limit leaves room, %d eligible members, threshold %d) but no signing %d exists", len(eligPre), s.cfg.T, known+1)
+				return next, st
+			}
+			if !has {
+				st.Saw("oracle-signing-refused:" + map[bool]string{true: "too-few-eligible", false: "fee-limit"}[room])
+				continue
+			}
+			sg := &mSigning{ID: known + 1, Requester: bandtesting.FeePayer.Address.String(), Status: "W", Submitted: map[int]bool{}, Paid: true, Fee: feeAtStart}
+			m.Escrow += feeAtStart * int64(s.cfg.T)
+			m.Sigs = append(m.Sigs, sg)
+			if !s.adoptAttempt(w, postEnd, m, sg, &st, eligPre) {
+				return next, st
+			}
+			st.Saw("oracle-signing-created")
+		}
+		m.Due = nil
+		{
+			known := uint64(0)
+			for _, sg := range m.Sigs {
+				if sg.ID > known {
+					known = sg.ID
+				}
+			}
+			if c := tk.GetSigningCount(postEnd); c != known {
+				st.Violate("C05/unexpected-signing-created-at-block-end", "signing count %d after the block, model knows %d", c, known)
+				return next, st
+			}
+		}
 		for i := range exps {
 			sg := exps[i].sg
 			elig := s.eligible(m)
